@@ -13,7 +13,8 @@ K      : Model/Recursions.lean (hansenlaw_transform, direct_transform python bac
          implementation is compared with *its own extracted operator*: T(X) == X @ operator_of(T) — i.e. the
          implementation really is the fixed matrix form the theorems are about
 S      : linearity on random pairs (negative values), row independence (bit-for-bit), dr scaling, NNLS positive
-         homogeneity, integer dtypes, image tools, abel.Transform settings
+         homogeneity, integer dtypes, image tools, abel.Transform settings; sparse images (one column, a band between empty
+         borders) = X @ operator; integer images through set_center; explicit grids in units from 1e-16 to 1e3
 """
 import itertools
 import json
